@@ -81,10 +81,15 @@ func collectRefNodes(n cm.Node, out *[]string) {
 
 var labelAtoms = []string{"a", "B", "ß", "ẞ", "SS", "ss", "İ", "i̇", "ǅ", "ǆ", "Σ", "σ", "ς", "É", "é", "k", "K", "K", " ", "  ", "\t", "\n", " \n ", "\\]", "\\[", "x", "Y", "1", "-", " ", "\f", " ", "Å", "å", "ﬁ", "fi"}
 
-func genLabel(r *Rng) string {
+func genLabel(r *Rng) string { return genLabelFrom(r, labelAtoms) }
+
+// docLabelAtoms: labels written into documents may also hold NUL bytes (read as U+FFFD, CommonMark 0.30 section 2.3).
+var docLabelAtoms = append(append([]string{}, labelAtoms...), "\x00", "\x00", "\x00\x00", "\ufffd")
+
+func genLabelFrom(r *Rng, atoms []string) string {
 	var sb strings.Builder
 	for k := 1 + r.Intn(5); k > 0; k-- {
-		sb.WriteString(r.Pick(labelAtoms))
+		sb.WriteString(r.Pick(atoms))
 	}
 	return sb.String()
 }
@@ -194,7 +199,7 @@ func runC12(c *Ctx) {
 	wrappers := []string{"%s\n", "> %s\n", "- %s\n", "1. %s\n", "> - %s\n", "   %s\n"}
 	for i := 0; i < c.N(20000, 400000); i++ {
 		rng := newRng(c.Seed, "c12-doc", i)
-		label := strings.TrimSpace(genLabel(rng))
+		label := strings.TrimSpace(genLabelFrom(rng, docLabelAtoms))
 		if label == "" || strings.ContainsAny(label, "[]") && !strings.Contains(label, "\\") {
 			continue
 		}
@@ -230,6 +235,7 @@ func runC12(c *Ctx) {
 		c.count(string(doc), ndefs >= 2 || !isASCII([]byte(label)))
 		// independent expectation via the Lean specification's normal form
 		normSpec := func(l string) string {
+			l = strings.ReplaceAll(l, "\x00", "\ufffd")
 			return c.drv.Ask1("norm\tspec\t" + hx([]byte(l)) + "\t" + foldTable([]byte(l)))
 		}
 		// which definitions did the parser actually recognise (a label variant may not be a valid label)
@@ -241,10 +247,23 @@ func runC12(c *Ctx) {
 		for _, d := range defs {
 			if normSpec(d.label) == un && un != "-" {
 				// is this definition present in the tree at all? (ask the map by its own key)
-				if _, ok := res.refs[cm.VerifNormalizeLabel([]byte(d.label))]; ok {
+				if _, ok := res.refs[cm.VerifNormalizeLabel([]byte(strings.ReplaceAll(d.label, "\x00", "\ufffd")))]; ok {
 					wantDest, found = d.dest, true
 					break
 				}
+			}
+		}
+		// every key of the map is the normal form of the label of one of the definitions written into the document
+		for k := range res.refs {
+			ok := false
+			for _, d := range defs {
+				if normSpec(d.label) == hx([]byte(k)) {
+					ok = true
+					break
+				}
+			}
+			if !ok {
+				c.report("map-key-is-not-the-normal-form-of-a-definition-label", doc, "definition-docs", fmt.Sprintf("key %q", k), nil, nil)
 			}
 		}
 		html := string(renderSafe(doc))
